@@ -235,6 +235,27 @@ pub fn directed_inputs() -> Vec<(String, Vec<u8>)> {
         out.push((format!("GLSL import + OpExtInst {} inside a block", num), mk(&[(6 << 16) | 11, 3, 0x4c534c47, 0x6474732e, 0x3035342e, 0, (5 << 16) | 54, 2, 7, 0, 8, (2 << 16) | 248, 9, (6 << 16) | 12, 1, 10, 3, num, (1 << 16) | 253, (1 << 16) | 56])));
     }
     out.push(("GLSL import + OpExtInst unknown number".into(), mk(&[(6 << 16) | 11, 3, 0x4c534c47, 0x6474732e, 0x3035342e, 0, (6 << 16) | 12, 1, 2, 3, 999, 5])));
+    // a numeric type id declared twice with different widths / kinds, a constant in between (sized by the
+    // first declaration while a reader that scans all declarations first sees the last), literal patterns
+    // with and without a non-zero high word
+    let decl = |float: bool, width: u32| -> Vec<u32> { if float { vec![(3 << 16) | 22, 8, width] } else { vec![(4 << 16) | 21, 8, width, 1] } };
+    for (f1, w1) in [(true, 64u32), (false, 64), (true, 32), (false, 32), (true, 16), (false, 8)] {
+        for (f2, w2) in [(true, 64u32), (true, 32), (true, 16), (false, 64), (false, 32), (false, 16), (false, 0), (true, 0), (false, 128)] {
+            if (f1, w1) == (f2, w2) {
+                continue;
+            }
+            for lit in [[0u32, 0x3ff8_0000], [0xffff_ffff, 0xffff_ffff], [1, 0]] {
+                let mut ws = decl(f1, w1);
+                if w1 == 64 {
+                    ws.extend([(5 << 16) | 43, 8, 10, lit[0], lit[1]]);
+                } else {
+                    ws.extend([(4 << 16) | 43, 8, 10, lit[0] ^ lit[1]]);
+                }
+                ws.extend(decl(f2, w2));
+                out.push((format!("type %8 declared as {}{} then as {}{} around a constant {:x?}", if f1 { "float" } else { "int" }, w1, if f2 { "float" } else { "int" }, w2, lit), mk(&ws)));
+            }
+        }
+    }
     out
 }
 
